@@ -104,6 +104,13 @@ def _evaluate(m, obs, reverse=False, cheap_only=False):
     return out
 
 
+# fixed, seed-independent inputs: symmetric ring stereocentres (stereo refinement that cannot split a class), atom-mapped SMILES whose
+# storage order is not ascending (copy / pack / match order), equivalent E/Z double bonds, salts, cages
+ANCHORS = ['C[C@H]1CC[C@@H](C)CC1', 'O[C@H]1C[C@@H](O)C1', 'C[C@H]1C[C@@H](C)C1', 'C[C@@H]1CC[C@@H](C)CC1', '[CH3:5][CH2:3][OH:1]',
+           '[cH:9]1[cH:3][cH:7][cH:2][cH:8][c:1]1[OH:4]', '[CH3:7][C@H:2]([NH2:9])[C:4](=[O:1])[OH:3]', 'OC(=O)/C=C/C=C\\C(O)=O', 'C/C=C/CC/C=C\\C',
+           '[Na+].[Cl-]', 'CC(=O)[O-].[Na+]', 'C12C3C4C1C5C2C3C45', 'C1CC2CCC1C2', 'c1ccc2ccccc2c1', '[O:3]=[C:1]([OH:2])[CH2:10][CH2:4][NH2:6]']
+
+
 def worker(total, start, n):
     from vlib import env
     env.setup()
@@ -114,7 +121,7 @@ def worker(total, start, n):
         pack = False
     from chython import smiles
     from bounded import domains as D
-    mols = D.corpus_sample(total, 'c19')[start:start + n]
+    mols = (ANCHORS + D.corpus_sample(max(0, total - len(ANCHORS)), 'c19'))[start:start + n]
     obs = _observables(pack)
     w = sys.stdout
     w.write(json.dumps({'meta': {'pack': pack, 'hashseed': os.environ.get('PYTHONHASHSEED'), 'observables': [x for x, _ in obs]}}) + '\n')
